@@ -406,7 +406,7 @@ theorem samplesIn_onGrid (den rate : Nat) (hden : 0 < den) (t m : Int) (h : (rat
   unfold samplesIn; rw [h]; exact C16.roundHalfEven_exact m den hden
 
 theorem window_length (den : Nat) (f : WavFile) (p : Int × Int)
-    (h1 : idx den f.rate p.1 ≤ idx den f.rate p.2) (h2 : idx den f.rate p.2 ≤ f.nframes) :
+    (_h1 : idx den f.rate p.1 ≤ idx den f.rate p.2) (h2 : idx den f.rate p.2 ≤ f.nframes) :
     (window den f p).length = (idx den f.rate p.2 - idx den f.rate p.1) * f.width := by
   unfold window
   rw [List.length_take, List.length_drop]
@@ -512,8 +512,8 @@ theorem marked_keep (a b : Int) (K : List (Int × Int)) (h : InChain a K b) (hne
 theorem marked_delete (a b : Int) (D : List (Int × Int)) (h : InChain a D b) (hne : D ≠ []) :
     computeKeepDelete a b [] D = .ok (tiling false a D b) := by
   unfold computeKeepDelete
-  simp only [isEmpty_false D hne, List.isEmpty_nil, Bool.not_false, Bool.not_true, Bool.and_false, Bool.false_and,
-    Bool.and_true, Bool.true_and, Bool.false_eq_true, if_false, if_true]
+  simp only [isEmpty_false D hne, List.isEmpty_nil, Bool.not_false, Bool.not_true, Bool.and_false,
+    Bool.and_true, Bool.false_eq_true, if_false, if_true]
   rw [invert_eq_complement a D b h hne]
   simp only
   rw [sortMarked_delete a D b h]
@@ -922,7 +922,7 @@ theorem marked_last (a b : Int) (L : List (Int × Int)) (hne : L ≠ []) (hpos :
     exact last_of_sorted true _ _ g _ (List.mergeSort_perm _ _)
       (List.pairwise_mergeSort (fun a b c => le_trans a b c) le_total _) hgm hglast hG
   · unfold computeKeepDelete
-    simp only [isEmpty_false _ hK, List.isEmpty_nil, Bool.not_false, Bool.not_true, Bool.and_false, Bool.false_and,
+    simp only [isEmpty_false _ hK, List.isEmpty_nil, Bool.not_false, Bool.not_true, Bool.and_false,
       Bool.and_true, Bool.false_eq_true, if_false, if_true]
     rw [hcall]
   · unfold sortMarked
@@ -972,7 +972,7 @@ theorem negative_time_counterexample :
     · decide
   have hm : computeKeepDelete 0 8 [] [(-8, 4)] = .ok [⟨-8, 4, false⟩, ⟨4, 8, true⟩] := by
     unfold computeKeepDelete
-    simp only [List.isEmpty_nil, List.isEmpty_cons, Bool.not_false, Bool.not_true, Bool.and_false, Bool.false_and,
+    simp only [List.isEmpty_nil, List.isEmpty_cons, Bool.not_false, Bool.not_true, Bool.and_false,
       Bool.and_true, Bool.false_eq_true, if_false, if_true]
     rw [hinv]; simp only; rw [hsort]
   have hm2 : computeKeepDelete 0 64 [(-1, 64)] [] = .ok [⟨-1, 64, true⟩] := by
@@ -1051,6 +1051,7 @@ theorem extract_eq_getSubwav (f : WavFile) (s e : QTime) (hds : 0 < s.den) (hde 
 /-! ## 12. `splitAudioOnTier`: one output per entry, names, frames, cropped TextGrids -/
 
 section split
+set_option linter.unusedSectionVars false
 variable {α : Type} [LT α] [LE α] [DecidableLT α] [DecidableLE α] [BEq α] [Add α] [Sub α] [Tm α]
 
 /-- what the entry loop produces for the entries `es`, the first of which has the number `i` -/
